@@ -523,8 +523,10 @@ func (f *FuncCtx) field(x Val, fl *types.Var, env *Env, at ast.Node) Val {
 		}
 		h := f.heapName(el, fl)
 		v := Val{T: fmt.Sprintf("(select %s %s)", f.heapGet(env, h), x.T), Typ: fl.Type()}
-		for _, c := range f.typeInvCheap(v.T, fl.Type()) {
-			f.assume(env, c)
+		if f.spec == nil {
+			for _, c := range f.typeInvCheap(v.T, fl.Type()) {
+				f.assume(env, c)
+			}
 		}
 		return v
 	}
@@ -708,6 +710,10 @@ func (f *FuncCtx) mapDelete(m Val, k Val, mt *types.Map) string {
 
 func (f *FuncCtx) sliceExpr(e *ast.SliceExpr, env *Env) Val {
 	x := f.expr(e.X, env)
+	if x.Typ == nil {
+		f.fail("slice expression on untyped value %s", exprStr(e))
+		return x
+	}
 	var elem types.Type
 	var arr, ln string
 	switch u := x.Typ.Underlying().(type) {
